@@ -181,7 +181,7 @@ func (e *Engine) absVH(inst party.ID, r int) VH {
 // learnHashes records the correspondence real hash -> abstract vh from a snapshot.
 func (e *Engine) learnHashes(inst party.ID, p *Party) {
 	sn, ok := p.H.(snapshotter)
-	if !ok {
+	if !ok || p.Hung {
 		return
 	}
 	s := sn.VerifSnapshot()
@@ -255,7 +255,7 @@ func (e *Engine) PostOf(inst party.ID) Post { return e.post(inst, e.Parties[inst
 func (e *Engine) post(inst party.ID, p *Party) Post {
 	st := p.Status()
 	po := Post{St: st.St, Ek: "none", Culp: []string{}}
-	if sn, ok := p.H.(snapshotter); ok {
+	if sn, ok := p.H.(snapshotter); ok && !p.Hung {
 		s := sn.VerifSnapshot()
 		po.Cur = s.Round
 		for _, r := range s.Rounds {
